@@ -1,23 +1,11 @@
+\* The model WITHOUT the exemption of the known finding KF-C16-1 (F5): TLC must
+\* refute Inv_NoRedZoneWriteIfLeaf (x86-64 ELF, leaf, align_stack alone).
 SPECIFICATION Spec
 CONSTANTS
-  GenAbis = {"x64elf", "x64pe", "ia32pe", "arm64", "mips32"}
+  GenAbis = {"x64elf"}
   Wide = FALSE
-  ScratchVals = {0, 1, 3}
+  ScratchVals = {0, 1}
   Emit = FALSE
   Strict = TRUE
-INVARIANT Inv_TypeOK
-INVARIANT Inv_Refusal
-INVARIANT Inv_NoWriteAtOrAboveOriginalSp
 INVARIANT Inv_NoRedZoneWriteIfLeaf
-INVARIANT Inv_ReadsOnlyOwnSlots
-INVARIANT Inv_RestoredDeclared
-INVARIANT Inv_NoCollateral
-INVARIANT Inv_FlagsRestoredIfDeclared
-INVARIANT Inv_FlagsUntouchedIfNotDeclared
-INVARIANT Inv_SpRestored
-INVARIANT Inv_ReportedAdjustment
-INVARIANT Inv_AlignedIfAlignStack
-INVARIANT Inv_BodyStackNeutral
-INVARIANT Inv_ScratchOK
-INVARIANT Inv_Progress
 CHECK_DEADLOCK FALSE
